@@ -777,7 +777,7 @@ class _State:
         self.log('iterbreak', op['how'])
         if not self.ctxs:
             lk = leaks(self.path)
-            if lk and (self.has('leak') or self.has('ro') or self.has('model')):
+            if lk and self.has('leak'):
                 raise Viol('leak.after_abandoned_iteration', lk[0][0], str(lk[:4]))
         self.after_step(op)
 
@@ -904,9 +904,9 @@ class _State:
             f()
             return None
         except Exception as e:  # noqa
-            return e
+            return e.with_traceback(None)
         except Interrupt as e:
-            return e
+            return e.with_traceback(None)
 
     def state_snapshot(self):
         """The *state* a rejected call must leave unchanged: data bytes, the
@@ -959,7 +959,7 @@ class _State:
             names = ('len', 'shape', 'size', 'nbytes', 'dtype')
             bad = [n for n, a, b in zip(names, obs, exp) if a != b]
             raise Viol(f'{who}.attrs', 'mismatch:' + ','.join(bad), f'{obs} != {exp}')
-        if type(got) is not np.ndarray:
+        if not isinstance(got, np.ndarray):
             raise Viol(f'{who}.contents', f'type:{type(got).__name__}', '')
         ok, why = D.arr_equal(got, m)
         if not ok:
